@@ -97,6 +97,26 @@ func ParseMsg(toks []string) (Msg, error) {
 	return m, err
 }
 
+// ParseMsgs parses "<msg> [; <msg>]…" (the body of a TX, CHECK or GOVEXEC line).
+func ParseMsgs(toks []string) ([]Msg, error) {
+	var out []Msg
+	rest := toks
+	for {
+		m, r, err := parseMsg(rest)
+		if err != nil {
+			return nil, err
+		}
+		out = append(out, m)
+		if len(r) == 0 {
+			return out, nil
+		}
+		if r[0] != ";" {
+			return nil, fmt.Errorf("expected ';' between messages, found %q", r[0])
+		}
+		rest = r[1:]
+	}
+}
+
 // Tx is a TX or CHECK line.
 type Tx struct {
 	N       int
